@@ -310,7 +310,7 @@ class Padding(WidgetDecoration[WrappedWidget], typing.Generic[WrappedWidget]):
             canv = self._original_widget.render((), focus)
 
         if canv.cols() == 0:
-            canv = SolidCanvas(" ", size[0], canv.rows())
+            canv = SolidCanvas(" ", size[0] if size else left + right, canv.rows())
             canv = CompositeCanvas(canv)
             canv.set_depends([self._original_widget])
             return canv
@@ -339,6 +339,26 @@ class Padding(WidgetDecoration[WrappedWidget], typing.Generic[WrappedWidget]):
                 self._align_type,
                 self._align_amount,
                 WHSettings.CLIP,
+                width,
+                None,
+                self.left,
+                self.right,
+            )
+
+        if not size:
+            # FIXED render: the canvas is exactly pack() wide, the wrapped widget keeps the width it is rendered
+            # with and the remaining columns are distributed according to the alignment
+            if self._width_type == WHSettings.GIVEN:
+                width = self._width_amount
+                maxcol = max(width, self.min_width or 1) + self.left + self.right  # as in pack()
+            else:
+                maxcol, _ignore = self.pack((), focus)
+                width, _ignore = self._original_widget.pack((), focus=focus)
+            return calculate_left_right_padding(
+                maxcol,
+                self._align_type,
+                self._align_amount,
+                WHSettings.GIVEN,
                 width,
                 None,
                 self.left,
